@@ -177,6 +177,9 @@ func (sc *sched) spawn(f func()) *thread {
 	sc.wg.Add(1)
 	go func() {
 		defer sc.wg.Done()
+		// Faults at non-nil addresses (unsafe pointer arithmetic on a
+		// corrupted structure) become panics of this thread.
+		debug.SetPanicOnFault(true)
 		defer func() {
 			r := recover()
 			if r != nil && !sc.aborting {
